@@ -54,8 +54,16 @@ fn probe(r: &mut RunReport, k: &str, n: u64) {
 pub fn reset_shared() {
     // SAFETY: called only between runs / between operations of the single
     // thread that uses the convenience API at that time.
-    unsafe { temporal_rs::verif_hooks::reset_shared_provider() }
+    let could = unsafe { temporal_rs::verif_hooks::reset_shared_provider() };
+    if !could {
+        // the provider is not stored in a resettable LazyLock any more: the
+        // checks still run, but every run and every reference starts from
+        // whatever state the previous one left ("warm-start mode")
+        RESET_UNAVAILABLE.store(true, std::sync::atomic::Ordering::Relaxed);
+    }
 }
+
+pub static RESET_UNAVAILABLE: std::sync::atomic::AtomicBool = std::sync::atomic::AtomicBool::new(false);
 
 fn fresh() -> FsTzdbProvider {
     FsTzdbProvider::default()
